@@ -147,7 +147,7 @@ class Tools:
             kv = dict(x.split('=') for x in ms.split())
             r['ms_ret'], r['ms_args'] = kv['ret'], kv['args'].split(';')
             r['wf'] = kv.get('wf')
-            r['straddle'], r['gccarg'] = kv.get('straddle'), kv.get('gccarg')
+            r['straddle'], r['gccarg'], r['mcg'] = kv.get('straddle'), kv.get('gccarg'), kv.get('mcg')
             res.append(r)
         return res
 
@@ -271,7 +271,8 @@ def kverdict(t, r):
             return 'model-sysv'
         c2m_arg = first(blk_letters(r['c2m_args'][0]))
         if c2m_arg == r['gcc_arg'].upper() and ret_same(r['gcc_ret'], r['c2m_ret']):
-            return 'ok-straddle-fixed'
+            # the tree has the fix: its model is classify_arg_g (theorem classify_fixed_eq_gcc_total)
+            return 'ok-straddle-fixed' if c2m_arg == r['mcg'] else 'model-c2m'
         if c2m_arg == first(r['ms_args'][0]).upper() and r['c2m_args'] == r['mc_args'] and r['c2m_ret'] == r['mc_ret']:
             return 'known-straddling-unnamed-bf'
         return 'abi-mismatch'
